@@ -1,10 +1,10 @@
 package main
 
 import (
-	"os"
 	"fmt"
 	"go/constant"
 	"go/types"
+	"os"
 	"strings"
 
 	"golang.org/x/tools/go/ssa"
@@ -25,10 +25,10 @@ type CEnv struct {
 	old  *State
 	pkg  *types.Package
 	// frame context for loop invariants
-	fr   *Frame
-	at   *ssa.BasicBlock
-	over map[ssa.Value]Value
-	loop *loopInfo
+	fr    *Frame
+	at    *ssa.BasicBlock
+	over  map[ssa.Value]Value
+	loop  *loopInfo
 	atIdx int // >0: names defined before this instruction index in block `at` are visible too
 }
 
